@@ -1,6 +1,6 @@
 """C04 — parallel string sort: no use of a self-deleting step after a release point,
 add-before-enqueue, counters decided by their own RMW, phase arming, completion barrier,
-copy_back on all paths of the leaf sorter.
+copy_back on all paths of the leaf sorter and before every range is reported finished (ctx.donesize).
 
 Verdict policy of this file: a violation is reported only on positive evidence (a CFG path, a row of a small
 decision table, a counted registration balance, a constant mask that differs from the builder's); a shape that is
@@ -468,6 +468,35 @@ def must_release(fn, memo, depth=0):
     return r
 
 
+def loop_tests(fn, g, lp):
+    """positions at which the loop decides to go on: the operands of its condition (a chain of &&), or of the negated condition of a
+    leading `if (..) break;` of an endless loop; [] when the test is of another form"""
+    init, cond, inc, body = match.loop_parts(lp)
+    if cond is None or const_int(peel(cond)) or const_int(cond):
+        et = exit_test_first(body)
+        if et is None:
+            return []
+        c, neg = et[0], True
+    else:
+        c, neg = cond, False
+
+    def ops(e, neg):
+        e = peel(e)
+        if e is None:
+            return None
+        if e["k"] == "UnaryOperator" and e.get("op") == "!" and match.binop(e, ("==", "!=")) is None:
+            return ops(kids(e)[0], not neg)
+        if e["k"] == "BinaryOperator" and e.get("op") in ("&&", "||"):
+            # go on <=> a && b;  leave <=> a || b (go on <=> !a && !b)
+            if (e["op"] == "&&") == neg:
+                return None
+            l, r = ops(kids(e)[0], neg), ops(kids(e)[1], neg)
+            return None if l is None or r is None else l + r
+        p = g.pos(e)
+        return [p] if p is not None else None
+    return ops(c, neg) or []
+
+
 def uar_find(fn, skip=None):
     """('bad', node, why) for a member access reachable after a release point, else ('ok', number of release points)"""
     g = cfgm.CFG(fn)
@@ -540,7 +569,14 @@ def uar_find(fn, skip=None):
                 in_cond = (cond is not None and any(z is y for z in ir.walk(cond))) or (inc is not None and any(z is y for z in ir.walk(inc)))
                 in_body = any(z is y for z in ir.walk(body))
                 if in_body and not in_cond:
-                    continue
+                    # safe only behind the loop's own test (it came out `continue`: jobs remain); what runs between the enqueue and that
+                    # test also runs after the last job was enqueued
+                    tests = loop_tests(fn, g, lp)
+                    if not tests:
+                        raise Undecidable("%s: a job is enqueued while no handle is held inside a loop whose continuation test is not recognised; "
+                                          "whether `%s` is read only while jobs remain is not derived" % (fn.nloc(lp), dtable.describe(y)))
+                    if g.path_between_avoiding(pr, py, tests) is None:
+                        continue
             if tu_ == "escape":
                 escapes.append(y)
                 continue
@@ -2150,7 +2186,8 @@ def run(ck):
         "function of the self-deleting job classes no member of *this is reachable in the CFG after a release point (substep_notify_done(), delete "
         "this, giving up the job's own claim on the phase counter, or enqueuing a job while no handle is held); ADD-BEFORE-ENQUEUE / HANDLE-PAIR; "
         "RMW-RESULT (completion decided by the decrement's own result, acq_rel or stronger); PACKED-LCP-MASK (every read of the packed splitter_lcp byte selects the LCP or the flag with the builder's mask); PHASE-ARM (pwork_ armed with the number of jobs before "
-        "the first one is enqueued); COMPLETION-BARRIER; COPY-BACK on all paths of the leaf sorter. Two genuine use-after-free defects were found "
+        "the first one is enqueued); COMPLETION-BARRIER; COPY-BACK on all paths of the leaf sorter and on every path to a ctx.donesize() report "
+        "of a range that is not handed on. Two genuine use-after-free defects were found "
         "(distribute_finished, loop bound re-read after the last enqueue) and fixed. The ThreadPool itself is C10.")
     tu = ir.extract("witness/C04_parallel_sample_sort.cpp")
     for fn in tu.functions:
